@@ -213,7 +213,8 @@ def coq_build(pid, prop, timeout=1500):
             os.remove(vo)
         t0 = time.time()
         # every file of the property (also those only the extraction uses) + the property theorems
-        targets = ["theories/Properties_%s.vo" % pid] + [os.path.relpath(f, COQ)[:-2] + ".vo" for f in sorted(glob.glob(os.path.join(TH, pid, "*.v")))
+        targets = ["theories/Properties_%s.vo" % pid] + [os.path.relpath(f, COQ)[:-2] + ".vo"
+                                                         for f in sorted(glob.glob(os.path.join(TH, pid, "*.v"))) + sorted(glob.glob(os.path.join(TH, "Base", "*.v")))
                                                          if os.path.basename(f) != "Extract.v"]
         p = subprocess.run(["timeout", str(timeout), "make", "-j%d" % NCPU] + targets,
                            cwd=COQ, stdout=subprocess.PIPE, stderr=subprocess.STDOUT, text=True)
@@ -713,6 +714,8 @@ def setup():
     with Lock("coq"):
         gen_coqproject()
         targets = ["theories/Properties_%s.vo" % p for p in claimed]
+        for d in ["Base"] + claimed:     # also the files only the extraction imports (Base/Vio.v, <ID>/Spec.v …)
+            targets += [os.path.relpath(f, COQ)[:-2] + ".vo" for f in sorted(glob.glob(os.path.join(TH, d, "*.v"))) if os.path.basename(f) != "Extract.v"]
         p = subprocess.run(["timeout", "3000", "make", "-k", "-j%d" % NCPU] + targets, cwd=COQ)
     rc = p.returncode
     for pid in claimed:
